@@ -109,6 +109,13 @@ CONTEXTS = [
     ("weakA", ":~ {B}. [A@1,{G}]"),
     ("weakprio", ":~ {B}. [1@A,{G}]"),
     ("weakprioB", ":~ {B}. [1@B]"),
+    # a compared variable that occurs only in a guard / an element of a head aggregate is global in the head
+    ("hagg_rguard", "0 {{ h(Z) : q(Z) }} 3-A :- {B}."),
+    ("hagg_lguard", "A-1 {{ h(Z) : q(Z) }} :- {B}."),
+    ("hagg_count_rguard", "0 #count {{ Z : h(Z) : q(Z) }} A :- {B}."),
+    ("hagg_sum_rguard", "#sum {{ Z : h(Z) : q(Z) }} <= A :- {B}."),
+    ("choiceA", "{{ h(A) }} :- {B}."),
+    ("disjA", "h(A) ; g :- {B}."),
 ]
 
 PDEFS = [
@@ -172,7 +179,8 @@ def jobs(tier: str):
                             inp_used.append(["q", 1])
                         u = universe(pname, uses, tier)
                         yield job("C11", prog, u, [config(["symmetry"], inp_used, [], oracle)],
-                                  meta={"group": gname, "extra": ename, "ctx": cname, "p": pname})
+                                  meta={"group": gname, "extra": ename, "ctx": cname, "p": pname,
+                                        **({"owner_only": True} if cname.startswith(("hagg_", "choiceA", "disjA")) else {})})
 
     def eqagg():
         # symmetry first substitutes variable equalities, also inside aggregate elements: equalities between local
